@@ -71,8 +71,8 @@ def run(ctx):
         "it as v:<k>; the archive is written to a file outside the sandbox for the *Archive* forms); the model's "
         "wrappers are Ex.tarExtractDefault / tarExtractArchive / tarExtractArchiveWithMask and their zip twins "
         "(default mask Ex.defaultMask = 0o777); a missing archive path and an archive file cut to 100 bytes must give "
-        "err with nothing created; the harness also counts its open descriptors around the call (FD-LEAK = the "
-        "archive file was not closed)",
+        "err with nothing created; the harness also looks for a descriptor still open on the archive file after the call "
+        "(FD-LEAK = the archive file was not closed)",
     ]
     ctx.modelled += [
         "hardening (tools/HARDENING.md): entry counts 12…1000, directory depth up to 64, 255-byte components and paths of "
@@ -88,7 +88,7 @@ def run(ctx):
         "linked root): the destination is a symbolic link to a sibling directory; result and whole tree must equal those "
         "of the same archive extracted into that directory itself (archives with an entry naming the destination itself "
         "are exempt: the guard refuses a linked root)",
-        "a call that does not return within 20 s is reported as `hang` and the rest of that stream is skipped; panics are "
+        "a call that does not return within 10 s is reported as `hang` and the rest of that stream is skipped; panics are "
         "reported as `panic`",
         "NOT exercised: components longer than NAME_MAX / paths beyond PATH_MAX and names containing NUL (the kernel "
         "refuses them with ENAMETOOLONG / EINVAL, which the guard turns into an error; the model has no such limits), "
